@@ -231,6 +231,10 @@ def decide_pair(prog, max_replays=10, variants=False, check_deadlock=True, cycle
                 order = [1] * i + [2] * j + [1, 2] * 3
                 rep = replay(prog, order, timeout=12.0)
                 out["replays"] += 1
+                if rep["hang"]:
+                    # a hang must reproduce (a starved machine can make one replay time out)
+                    rep = replay(prog, order, timeout=20.0)
+                    out["replays"] += 1
                 out["witnesses"].append({"kind": "deadlock", "detail": wit[2:], "replay_hang": rep["hang"]})
                 if rep["hang"]:
                     out["verdict"] = "violated"
@@ -254,6 +258,10 @@ def decide_pair(prog, max_replays=10, variants=False, check_deadlock=True, cycle
             rep = replay(prog, order)
             n_rep += 1
             out["replays"] += 1
+            if rep["hang"]:
+                # a hang must reproduce (a starved machine can make one replay time out)
+                rep = replay(prog, order, timeout=45.0)
+                out["replays"] += 1
             w = {"kind": "cycle", "classes": [list(ka), list(kb)], "hang": rep["hang"], "diverged": rep["diverged"]}
             out["witnesses"].append(w)
             if rep["hang"]:
